@@ -1,5 +1,6 @@
 import Driver.Proto
 import Dawgs.Model.C18
+import Dawgs.Model.C19
 /-! Model driver for C18: the same op lines as harness/c18.go, answered by the Lean model
 (fragment boundaries and counts, loaded graph in creation order mapped back to source ids, verify
 outcome). Property values are opaque canonical JSON text. -/
@@ -128,6 +129,43 @@ def mutate (d : Dst P) : List String → Option (Dst P)
     if k < d.nodes.length then some { d with nodes := setAt d.nodes k (fun n => { n with props := normProps p }) } else none
   | _ => none
 
+def dumpAnswer (st : St) (codec : String) (batch shard : Nat) : St × String :=
+  match dumpAll st batch shard with
+  | .error e => ({ st with dumps := none, loaded := none }, "err " ++ dumpErrStr e)
+  | .ok ds =>
+    let parts := ds.map (fun d =>
+      let m := d.manifest
+      let files := (m.files.zip d.files).map (fun (e, f) => s!" {renderPath codec e.path}#{e.count}#{contentIds f.2}")
+      s!" {m.name} n={m.nodeCount} e={m.edgeCount} nk={kindsTok m.nodeKinds} ek={kindsTok m.edgeKinds}" ++ String.join files)
+    ({ st with codec := codec, dumps := some ds, loaded := none }, "ok" ++ String.join parts)
+
+def refusalStr : Dawgs.C19.Refusal → String
+  | .manifestPresent => "manifest-present"
+  | .noCheckpoint => "no-checkpoint"
+  | .badCheckpoint => "bad-checkpoint"
+  | .identityChanged => "identity-changed"
+  | .checkpointInvalid => "checkpoint-invalid"
+  | .fragmentMissing => "fragment-missing"
+  | .checksum => "checksum"
+  | .unexpectedFile => "unexpected-file"
+  | .sourceChanged => "source-changed"
+
+/-- the dump crashed at point `k` and then resumed (C19 model): `none` = it ends as the complete dump,
+`some class` = every resume refuses -/
+def interrupted (st : St) (codec : String) (batch shard k : Nat) : Option String :=
+  let o : Dawgs.C19.Opts :=
+    { driver := "fake", targets := st.graphs.map (·.name), outputDir := "", force := false, resume := false, scrub := false, salt := "",
+      scrubConfig := "default", compression := codec, zstdLevel := 3, shardSize := shard, batchSize := batch, progressInterval := 0,
+      progressSet := false }
+  let ident := Dawgs.C19.identityOf o
+  let ops : List (Dawgs.C19.FsOp P) := Dawgs.C19.dumpOps st.graphs ident
+  if k == 0 || k > ops.length then none else
+  let fs := Dawgs.C19.applyOps (ops.take k) []
+  if (Dawgs.C19.FS.get fs .manifest).isSome then none else
+  match (Dawgs.C19.resume st.graphs ident fs).outcome with
+  | .ok => none
+  | .refused c => some (refusalStr c)
+
 def step (st : St) (ts : List String) : St × String :=
   match ts with
   | ["reset"] => ({}, "ok")
@@ -151,16 +189,23 @@ def step (st : St) (ts : List String) : St × String :=
   | ["dump", codec, batch, shard] =>
     match batch.toNat?, shard.toNat? with
     | some batch, some shard =>
-      if st.graphs.isEmpty || !(["none", "gzip", "zstd"].contains codec) then (st, "bad-op") else
-      match dumpAll st batch shard with
-      | .error e => ({ st with dumps := none, loaded := none }, "err " ++ dumpErrStr e)
-      | .ok ds =>
-        let parts := ds.map (fun d =>
-          let m := d.manifest
-          let files := (m.files.zip d.files).map (fun (e, f) => s!" {renderPath codec e.path}#{e.count}#{contentIds f.2}")
-          s!" {m.name} n={m.nodeCount} e={m.edgeCount} nk={kindsTok m.nodeKinds} ek={kindsTok m.edgeKinds}" ++ String.join files)
-        ({ st with codec := codec, dumps := some ds, loaded := none }, "ok" ++ String.join parts)
+      if st.graphs.isEmpty || !(["none", "gzip", "zstd"].contains codec) then (st, "bad-op") else dumpAnswer st codec batch shard
     | _, _ => (st, "bad-op")
+  | "idump" :: codec :: batch :: shard :: mode :: k :: rest =>
+    match batch.toNat?, shard.toNat?, k.toNat? with
+    | some batch, some shard, some k =>
+      if st.graphs.isEmpty || !(["none", "gzip", "zstd"].contains codec) || batch < 1 || shard < 1 then (st, "bad-op") else
+      let wf := st.graphs.all (fun g => g.edges.all (fun e => g.nodes.any (·.id == e.src) && g.nodes.any (·.id == e.dst)))
+      if !wf then ({ st with dumps := none, loaded := none }, "bad-db") else
+      if mode == "fault" && rest.length == 1 then
+        -- a read fault leaves a clean checkpoint state (C19 tie); the resume completes to the uninterrupted dump
+        if k < 1 then (st, "bad-op") else dumpAnswer st codec batch shard
+      else if mode == "crash" && rest.isEmpty then
+        match interrupted st codec batch shard k with
+        | none => dumpAnswer st codec batch shard
+        | some cls => ({ st with dumps := none, loaded := none }, "stuck " ++ cls)
+      else (st, "bad-op")
+    | _, _, _ => (st, "bad-op")
   | ["load", batch] =>
     match batch.toNat?, st.dumps with
     | some batch, some ds =>
